@@ -84,6 +84,34 @@ class _Ev(Evaluator):
             return e
         return e
 
+    def const(self, e: ast.AST):  # type: ignore[override]
+        c = Evaluator.const(self, e)
+        if c is not None:
+            return c
+        # a component of a table row selected by folded tests: `(row_a if n == 8 else row_b)[0]`
+        if isinstance(e, ast.Subscript) and isinstance(e.slice, ast.Constant) and isinstance(e.value, (ast.IfExp, ast.Tuple, ast.Name)):
+            try:
+                f_ = self.ev(e)
+            except Inconclusive:
+                return None
+            return f_.const if f_.is_const() else None
+        return None
+
+    def _select_row(self, e: ast.AST) -> ast.AST:
+        """Follow aliases and conditional expressions whose tests fold (a chain left by an expanded table) to the selected row."""
+        cur = self.resolve_alias(e)
+        for _ in range(64):
+            if not isinstance(cur, ast.IfExp):
+                break
+            try:
+                t = self.truth(cur.test)
+            except Inconclusive:
+                break
+            if not t.is_const():
+                break
+            cur = self.resolve_alias(cur.body if t.const else cur.orelse)
+        return cur
+
     def _deep_alias(self, e: ast.AST) -> ast.AST:
         """`e` with every local that stands for an object (run.alias) replaced by what it stands for, at any depth:
         `memory.get_address_range().start` with `memory = self.state.memory`."""
@@ -128,6 +156,12 @@ class _Ev(Evaluator):
                 and e.func.value.id in self.run.alias and e.func.value.id not in self.run.env:
             e = ast.copy_location(ast.Call(func=ast.Attribute(value=self.resolve_alias(e.func.value), attr=e.func.attr, ctx=ast.Load()),
                                            args=e.args, keywords=e.keywords), e)
+        if isinstance(e, ast.Subscript) and isinstance(e.slice, ast.Constant) and isinstance(e.slice.value, int) \
+                and isinstance(e.value, (ast.IfExp, ast.Tuple, ast.Name)):
+            # (row if c else other_row)[i]: the component of the row the (folded) tests select
+            rv = self._select_row(e.value)
+            if isinstance(rv, ast.Tuple) and -len(rv.elts) <= e.slice.value < len(rv.elts):
+                return self.ev(rv.elts[e.slice.value])
         if isinstance(e, ast.Call):
             c = self.const(e) if not self.run.call_hook_first else None
             if c is not None:
@@ -159,6 +193,13 @@ class _Ev(Evaluator):
             return Form.k(1 if self.run.folder.fold(e) else 0)
         except Exception:
             pass
+        if isinstance(e, ast.Compare) and len(e.ops) == 1 and isinstance(e.ops[0], (ast.Is, ast.IsNot)) and isinstance(e.comparators[0], ast.Constant) \
+                and e.comparators[0].value is None and (isinstance(e.left, (ast.IfExp, ast.Tuple)) or (
+                    isinstance(e.left, ast.Name) and e.left.id in self.run.alias and e.left.id not in self.run.env)):
+            rv = self._select_row(e.left)
+            if isinstance(rv, ast.Tuple) or (isinstance(rv, ast.Constant) and rv.value is None):
+                is_none = isinstance(rv, ast.Constant)
+                return Form.k(1 if is_none == isinstance(e.ops[0], ast.Is) else 0)
         if isinstance(e, ast.UnaryOp) and isinstance(e.op, ast.Not):
             return Form.k(1) - self.truth(e.operand)
         if isinstance(e, ast.BoolOp):
@@ -288,6 +329,8 @@ class AbsRun:
             return AbsRun._aliasable(v.body) and AbsRun._aliasable(v.orelse)
         if isinstance(v, ast.Call) and isinstance(v.func, ast.Name) and v.func.id == "KEY_ERROR":
             return True  # the failed-lookup arm of an expanded table
+        if isinstance(v, ast.Tuple) or (isinstance(v, ast.Constant) and v.value is None):
+            return True  # a row of constants / "no row": kept as it is, its components are evaluated where they are used
         return False
 
     def on_call(self, c: ast.Call, ev: Evaluator) -> Optional[Form]:
@@ -355,6 +398,11 @@ class AbsRun:
                     raise
             return
         if isinstance(s, ast.Assign) and len(s.targets) == 1 and isinstance(s.targets[0], ast.Name) and self._aliasable(s.value):
+            rv = self.ev.resolve_alias(s.value)
+            if isinstance(rv, ast.Tuple) or (isinstance(rv, ast.Constant) and rv.value is None):
+                self.env.pop(s.targets[0].id, None)
+                self.alias[s.targets[0].id] = rv
+                return
             try:
                 self.env[s.targets[0].id] = self.ev.ev(s.value)
                 self.alias.pop(s.targets[0].id, None)
@@ -362,6 +410,13 @@ class AbsRun:
                 self.env.pop(s.targets[0].id, None)
                 self.alias[s.targets[0].id] = self.ev.resolve_alias(s.value)
             return
+        # a, b = <local that stands for a tuple>
+        if isinstance(s, ast.Assign) and len(s.targets) == 1 and isinstance(s.targets[0], ast.Tuple) and isinstance(s.value, ast.Name) \
+                and s.value.id in self.alias and s.value.id not in self.env:
+            rv = self.ev.resolve_alias(s.value)
+            if isinstance(rv, ast.Tuple) and len(rv.elts) == len(s.targets[0].elts):
+                self.stmt(ast.copy_location(ast.Assign(targets=s.targets, value=rv, lineno=getattr(s, "lineno", 0)), s))
+                return
         if isinstance(s, ast.Assign) and len(s.targets) == 1 and isinstance(s.targets[0], ast.Name):
             try:
                 self.env[s.targets[0].id] = self.ev.ev(s.value)
